@@ -417,7 +417,16 @@ func writeJSON(path string, v interface{}) {
 
 // shareFrom runs another property's rule function in a scratch context that shares this context's kernel cache and
 // re-files the obligations selected by match under newRule: one analysis, several properties that depend on its result.
+var shareDepth int
+
 func shareFrom(c *Ctx, newRule string, ruleFn func(*Ctx), match func(o *Obligation) bool) int {
+	// two rule sets that share from each other would recurse for ever: fail as undecided instead
+	if shareDepth >= 3 {
+		c.undecided(newRule, "-", "shared rule set", "-", "rule sets share from each other (cycle)")
+		return 0
+	}
+	shareDepth++
+	defer func() { shareDepth-- }()
 	sub := NewCtx(c.P, c.Prop, c.Tier)
 	sub.Kernels = c.Kernels
 	sub.KStats = c.KStats
